@@ -5,21 +5,23 @@ import "verif/fw"
 // ruleAdditions: what was added to a check after its rule text was first written (strengthening in response to
 // seeded changes, DESIGN.md 8.2). Appended to the rule text that goes into the evidence files.
 var ruleAdditions = map[string]string{
+	"C14": " Added later: Dispatch handlers that rewrite the topic they are given.",
+	"C04": " Added later: the hand-over rule (HandlerCheck of C17) is also run through the reconnecting and retrying clients, whose handler travels from one BaseClient to the next (messages right behind every CONNACK, around cuts).",
 	"C01": " Added later: make-before-break client switches by the hand-written loops with requests in flight (sw1); fuzz mode (workload, configuration, client kind, transport behaviour and plan all drawn from the PRNG); transports returning net.Pipe/TCP-style errors after a local Close and a late-returning Close; API calls that never return wind the run up as certified stuck.",
 	"C02": " Added later: messages accepted before the first connection exists (preq2); zero deliveries in a certified-stuck or live-locked run are a violation as well; make-before-break switches; fuzz mode.",
 	"C03": " Added later: fuzz mode; single-filter Subscribe calls that a re-subscription can mimic are excluded from R2.",
-	"C05": " Added later: in faulty runs of the retrying clients every PUBLISH/SUBSCRIBE/UNSUBSCRIBE written (retransmissions and re-subscriptions included) is compared with the application's request, also against a broker that grants one QoS level less than requested.",
-	"C06": " Added later: hostile acknowledgements that match requests in flight (SUBACK vectors of any length/value incl. surplus codes, trailing bytes, reserved flags, truncated identifiers); failure and reserved SUBACK codes followed by session-less reconnects (the re-subscription must not bring the process down); pre-CONNACK streams.",
-	"C07": " Added later: 1-4 calls cancelled while waiting; their acknowledgements arrive late, in the foreign phase, while later calls with other identifiers wait.",
-	"C08": " Added later: fuzz mode.",
-	"C09": " Added later: a connection that goes deaf for PINGREQ only (everything else still answered) must be given up by the keep-alive and replaced, checked after quiescence (the Connect context has been cancelled by then).",
-	"C11": " Added later: late-acks (calls of every kind incl. two Pings cancelled while waiting, then every answer sent twice, then a fresh Ping and a connection-ending cause: Done must close, reader must exit) and switch-* (hand-driven RetryClient, SetClient make-before-break while a request completes on the replaced connection; Connect/Publish/Ping/Disconnect must return under their contexts).",
+	"C05": " Added later: in faulty runs of the retrying clients every PUBLISH/SUBSCRIBE/UNSUBSCRIBE written (retransmissions and re-subscriptions included) is compared with the application's request, also against a broker that grants one QoS level less than requested. Inbound: QoS 2 PUBLISH with another PUBLISH before its PUBREL; every delivered message is read again after later packets were received (nothing may show through).",
+	"C06": " Added later: hostile acknowledgements that match requests in flight (SUBACK vectors of any length/value incl. surplus codes, trailing bytes, reserved flags, truncated identifiers); failure and reserved SUBACK codes followed by session-less reconnects (the re-subscription must not bring the process down); pre-CONNACK streams. Listed malformed packets in the same buffer as an accepting CONNACK must end the link with a non-nil Err() and Closed error.",
+	"C07": " Added later: 1-4 calls cancelled while waiting; their acknowledgements arrive late, in the foreign phase, while later calls with other identifiers wait. 1-2 calls are left unacknowledged while the application calls Disconnect: they must not return success.",
+	"C08": " Added later: fuzz mode. Fault kind dropReq (request swallowed by a stalled link, response timeout configured).",
+	"C09": " Added later: a connection that goes deaf for PINGREQ only (everything else still answered) must be given up by the keep-alive and replaced, checked after quiescence (the Connect context has been cancelled by then). Phase waiting-connack-forever: Disconnect (200 ms context) while the client waits for a CONNACK with no connect timeout must return at the latest one watchdog after its context expired.",
+	"C11": " Added later: late-acks (calls of every kind incl. two Pings cancelled while waiting, then every answer sent twice, then a fresh Ping and a connection-ending cause: Done must close, reader must exit) and switch-* (hand-driven RetryClient, SetClient make-before-break while a request completes on the replaced connection; Connect/Publish/Ping/Disconnect must return under their contexts). State callbacks call Err()/Done(); a Connect outliving its context is a violation (not a hung worker); connect-writefail: peer gone before CONNECT is written - Connect fails, Done() closes, reader exits.",
 	"C12": " Added later: make-before-break switches; fuzz mode.",
-	"C13": " Added later: scripts P S S P with responses taking 80 % of a 400 ms timeout over several intervals; every Ping must be given a context deadline of at least half the configured timeout (confirmed on 3 of 3 executions).",
-	"C15": " Added later: the message that is retransmitted over the second client carries a caller-set identifier half the time.",
-	"C16": " Added later: reconn scenarios use transports whose Close returns late and that return net.Pipe/TCP-style errors after a local Close.",
-	"C17": " Added later: one-shot handlers installing their successor from inside the callback (in7); make-before-break client switches with a message arriving on the replaced connection (in8); a Handle call that never returns in a certified-stuck run is a violation; fuzz mode.",
-	"C18": " Added later: plans alternate the error style the transport returns after the library's own Close (net.Pipe, TCP, in-memory) and a late-returning Close.",
+	"C13": " Added later: scripts P S S P with responses taking 80 % of a 400 ms timeout over several intervals; every Ping must be given a context deadline of at least half the configured timeout (confirmed on 3 of 3 executions). Surplus PINGRESPs in the middle of an interval before the silence: no PINGREQ after an unanswered PINGREQ (only intervals >= 100 ms, surplus consumed a quarter interval earlier, 3 of 3); a broker answering every PINGREQ 100 ms late (timeout 400 ms) with ResponseTimeout 20 ms configured must not be declared dead.",
+	"C15": " Added later: the message that is retransmitted over the second client carries a caller-set identifier half the time. Caller-set identifiers combined with DUP/retain; mode meet: the retransmission of a request from the previous connection and a fresh request on the next must not carry the same identifier in 3 of 4 trials.",
+	"C16": " Added later: reconn scenarios use transports whose Close returns late and that return net.Pipe/TCP-style errors after a local Close. Causes: peer close right behind an inbound QoS 1/2 PUBLISH (the reader's own acknowledgement write fails); peer gone before CONNECT is written.",
+	"C17": " Added later: one-shot handlers installing their successor from inside the callback (in7); make-before-break client switches with a message arriving on the replaced connection (in8); a Handle call that never returns in a certified-stuck run is a violation; fuzz mode. The last inbound packet consumed on a connection is judged too; broker redelivery of unacknowledged inbound messages (same id, DUP=1).",
+	"C18": " Added later: plans alternate the error style the transport returns after the library's own Close (net.Pipe, TCP, in-memory) and a late-returning Close. dropReq; dropped SUBACK of a re-subscription (session-less broker, established subscriptions); OnError callbacks that publish a status message through the client.",
 }
 
 func init() {
